@@ -305,10 +305,10 @@ func C12(r *core.Report) {
 	r.Extra["C12_exempt_entries"] = len(table)
 	r.Extra["C12_exempt_stale"] = stale
 	r.Extra["C12_site_counts"] = counts
-	r.Floor("C12.R1", 10)
-	r.Floor("C12.R2", 100)
-	r.Floor("C12.R3", 15)
-	r.Floor("C12.R4", 10)
+	r.Floor("C12.R1", 6)
+	r.Floor("C12.R2", 50)
+	r.Floor("C12.R3", 10)
+	r.Floor("C12.R4", 8)
 }
 
 // c12KindByte (R8): anywhere in the repository, a byte of a CAR section that is converted to
